@@ -68,6 +68,9 @@ def _alarm(signum, frame):
 
 
 CASE_TIMEOUT = int(os.environ.get('VERIF_CASE_TIMEOUT', '300'))
+_TIMEOUT_FACTOR = [1]
+RETRY_FACTOR = 8            # a case that ran out of time is run once more, alone, with this many times the limit
+RETRY_MAX = 3               # ... for at most this many cases of a run
 
 
 def _run_one(args):
@@ -76,7 +79,7 @@ def _run_one(args):
     import signal
     try:
         signal.signal(signal.SIGALRM, _alarm)
-        signal.alarm(int(getattr(_MOD, 'CASE_TIMEOUT', CASE_TIMEOUT)))
+        signal.alarm(int(getattr(_MOD, 'CASE_TIMEOUT', CASE_TIMEOUT)) * _TIMEOUT_FACTOR[0])
     except Exception:
         pass
     try:
@@ -103,7 +106,8 @@ def _run_one_inner(case):
         # reported as a disagreement with the case as replay, never silently waited for
         common.close_driver()
         r = CaseResult(False, detail='case did not finish within %d s (implementation or harness hangs on this input)'
-                       % CASE_TIMEOUT, violates=None)
+                       % (int(getattr(_MOD, 'CASE_TIMEOUT', CASE_TIMEOUT)) * _TIMEOUT_FACTOR[0]), violates=None)
+        r.timed_out = True
     except common.DriverError as e:
         r = CaseResult(False, detail='driver error: %s' % e, violates=None)
     except Exception as e:
@@ -117,6 +121,34 @@ def _run_chunk(chunk):
     return [_run_one(j) for j in chunk]
 
 
+def _run_chunk_patiently(chunk):
+    _TIMEOUT_FACTOR[0] = RETRY_FACTOR
+    return [_run_one(j) for j in chunk]
+
+
+def _retry_timeouts(modname, jobs, results, scratch_root):
+    """A case that ran out of time while the machine was busy is not a disagreement: it is run once more, alone in a
+    fresh process, with RETRY_FACTOR times the limit.  If it finishes, that result counts (and is marked); if it runs
+    out of time again it stays what it was - an input on which the implementation (or the harness) does not come back.
+    At most RETRY_MAX cases are retried, and none after the first one that fails again (a change that makes the code
+    hang would otherwise cost RETRY_FACTOR limits per case)."""
+    import concurrent.futures as cf
+    ctx = multiprocessing.get_context('fork')
+    timed = [i for i, _ in jobs if getattr(results[i], 'timed_out', False)]
+    for i in timed[:RETRY_MAX]:
+        limit = int(getattr(importlib.import_module(modname), 'CASE_TIMEOUT', CASE_TIMEOUT)) * RETRY_FACTOR
+        try:
+            with cf.ProcessPoolExecutor(1, mp_context=ctx, initializer=_init_worker,
+                                        initargs=(modname, scratch_root)) as ex1:
+                r = ex1.submit(_run_chunk_patiently, [(i, jobs[i][1])]).result(timeout=limit + 60)[0]
+        except Exception:
+            break
+        if getattr(r, 'timed_out', False):
+            break
+        r.branches = set(getattr(r, 'branches', None) or ()) | {'finished_on_retry_after_timeout'}
+        results[i] = r
+
+
 def run_cases(modname, cases, workers, scratch_root):
     """Run every case; a worker process that dies (killed by a signal, out of memory) must not stall the check:
     the cases of its chunk are re-run one by one in fresh single-use processes, and a case that kills its process
@@ -127,7 +159,9 @@ def run_cases(modname, cases, workers, scratch_root):
         _init_worker(modname, scratch_root)
         res = [_run_one(j) for j in jobs]
         common.close_driver()
-        return res
+        results = {r.index: r for r in res}
+        _retry_timeouts(modname, jobs, results, scratch_root)
+        return [results[i] for i, _ in jobs]
     ctx = multiprocessing.get_context('fork')
     size = max(1, len(jobs) // (workers * 4))
     chunks = [jobs[i:i + size] for i in range(0, len(jobs), size)]
@@ -167,6 +201,7 @@ def run_cases(modname, cases, workers, scratch_root):
                 r.index = j[0]
                 r.wall = 0.
                 results[j[0]] = r
+    _retry_timeouts(modname, jobs, results, scratch_root)
     return [results[i] for i, _ in jobs]
 
 
